@@ -1,3 +1,4 @@
+import StockpylModel.Props.MP
 import StockpylModel.Lemmas.Sim
 import StockpylModel.Props.C02
 /-!
